@@ -26,7 +26,7 @@ ASSUMPTIONS = [
     "with trailing bytes after an RTU frame the served payload must be the prefix of response_data() (the library's "
     "trim keeps the trailing bytes; sensors address the payload by offset)",
 ]
-MUST = ["aa55_sum_ge_8000", "aa55_sum_ge_10000", "rtu_trailing", "end_to_end_success", "negative_write_echo", "overlapping_tcp_inverters", "same_object_sequences", "consecutive_slow_or_identical_answers", "requests_from_a_new_event_loop",
+MUST = ["aa55_sum_ge_8000", "aa55_sum_ge_10000", "rtu_trailing", "end_to_end_success", "negative_write_echo", "overlapping_tcp_inverters", "same_object_sequences", "consecutive_slow_or_identical_answers", "requests_from_a_new_event_loop", "write_ack_payload_checked",
         "accepted_rtu", "accepted_tcp", "accepted_aa55"]
 EXHAUSTIVE = {"quick": False, "thorough": False}
 CLASSES = ["random", "ff", "00", "7f80", "fe", "aa55"]
@@ -139,7 +139,7 @@ def end_to_end(spec, part):
             want = pl
         else:
             kind = rnd.choice(("read", "read", "write", "multi"))
-            d = {"framing": framing, "kind": kind, "comm": 0xF7, "reg": rnd.randrange(65536)}
+            d = {"framing": framing, "kind": kind, "comm": 0xF7, "reg": rnd.choice((rnd.randrange(65536), rnd.randrange(65536), rnd.randrange(0x300), 0, 0x0136))}
             if kind == "read":
                 d["count"] = rnd.choice((1, 2, 33, 125, rnd.randrange(1, 126)))
                 pl = payload_bytes(rnd, 2 * d["count"], cls)
@@ -173,6 +173,18 @@ def end_to_end(spec, part):
                          f"{step[:2]} served {frame.hex()[:80]} (class {cls}): outcome {rec['outcome'] if rec else run.stop}, {ntx} transmissions", case)
             continue
         part.count("end_to_end_success")
+        if want is None and framing != "aa55":
+            # a write / write-multi acknowledgement echoes register and value (count): what is handed to the caller must still end
+            # with that echo, whatever the register address is
+            got = bytes.fromhex(rec["result"]["raw"])
+            data_ = bytes.fromhex(rec["result"]["data"]) if "data" in rec["result"] else None
+            echo = (frame[:-2] if framing == "rtu" else frame)[-2:]
+            if data_ is not None:
+                part.count("write_ack_payload_checked")
+                if not data_.endswith(echo):
+                    part.violate(f"C02/{framing}/payload-differs",
+                                 f"{step[:2]}: the acknowledgement {frame.hex()} was accepted but response_data() = {data_.hex()!r} no longer carries the echoed "
+                                 f"value/count {echo.hex()}", case)
         if want is not None:
             got = bytes.fromhex(rec["result"]["data"]) if "data" in rec["result"] else \
                 bytes.fromhex(rec["result"]["raw"])[7:-2]
